@@ -802,3 +802,97 @@ Theorem C19_buf_fetch_bytes_agrees_generated : forall b len,
       = Ok (st, cb_off b').
 Proof. exact buf_fetch_bytes_agrees_generated. Qed.
 Print Assumptions C19_buf_fetch_bytes_agrees_generated.
+
+(* ======================================================================================
+   byte buffer, round 2 (coq/Dsa/Buf_split_limit.v): ares_buf_split with a section limit and
+   with KEEP_DELIMS, against ordinary field splitting
+   ====================================================================================== *)
+From CAres.Dsa Require Import Buf_split_limit.
+Local Open Scope Z_scope.
+
+(* what ares_buf_split returns for a non-empty input is the reference machine's piece list of
+   the remaining bytes (so the closed forms below are statements about the code-shaped model) *)
+Theorem C19_buf_split_pieces_machine : forall b delims flags max_sections,
+  buf_inv b -> 0 <= flags -> 0 <= max_sections -> 0 < buf_zlen delims -> buf_remaining b <> [] ->
+  exists b', buf_split true (fun _ => true) b delims flags max_sections =
+             Ok (ARES_SUCCESS, b', fst (bufs_split delims flags max_sections (buf_remaining b))) /\
+             buf_inv b' /\ buf_remaining b' = [] /\ buf_consumed b' = buf_consumed b ++ buf_remaining b.
+Proof. exact buf_split_pieces_machine. Qed.
+Print Assumptions C19_buf_split_pieces_machine.
+
+(* (a) no KEEP_DELIMS, any limit, any other flags: the trim / blank / duplicate filter applied to
+   the fields in order; as soon as max_sections - 1 pieces have been KEPT, the whole unsplit
+   rest of the input that starts at the next field (delimiters included) is filtered as one
+   last piece ([buf_split_limit_spec]; [buf_fields_suffix] pairs every field with that rest) *)
+Theorem C19_buf_split_limit_fields : forall delims flags max_sections,
+  buf_flag flags ARES_BUF_SPLIT_KEEP_DELIMS = false ->
+  forall l, fst (bufs_split delims flags max_sections l) =
+            buf_split_limit_spec flags max_sections [] (buf_fields_suffix (buf_in_charset delims) l).
+Proof. exact bufs_split_limit_fields. Qed.
+Print Assumptions C19_buf_split_limit_fields.
+
+Theorem C19_buf_fields_suffix_fst : forall isd l, map fst (buf_fields_suffix isd l) = buf_fields isd l.
+Proof. exact buf_fields_suffix_fst. Qed.
+Print Assumptions C19_buf_fields_suffix_fst.
+
+(* the rest paired with field i = fields i, i+1, ... re-joined with the delimiters between them *)
+Theorem C19_buf_fields_suffix_rest : forall isd l cur,
+  exists ds, Forall (fun d => isd d = true) ds /\
+    length (buf_fields_suffix_go isd cur l) = S (length ds) /\
+    forall i, (i < length (buf_fields_suffix_go isd cur l))%nat ->
+      snd (nth i (buf_fields_suffix_go isd cur l) ([], [])) =
+      buf_interleave (skipn i (buf_fields_go isd cur l)) (skipn i ds).
+Proof. exact buf_fields_suffix_go_rest. Qed.
+Print Assumptions C19_buf_fields_suffix_rest.
+
+(* (a) ALLOW_BLANK with a limit n: at most n pieces, interleaved with the removed delimiters
+   they give back the input; only the last piece may contain delimiters, and only when the
+   limit was reached *)
+Theorem C19_buf_split_limit_partition : forall delims n, 0 < n < 2 ^ 64 -> forall l,
+  let pieces := fst (bufs_split delims ARES_BUF_SPLIT_ALLOW_BLANK n l) in
+  exists ds, Forall (fun d => buf_in_charset delims d = true) ds /\ length pieces = S (length ds) /\
+             buf_interleave pieces ds = l /\ buf_zlen pieces <= n /\
+             Forall (Forall (fun c => buf_in_charset delims c = false)) (removelast pieces) /\
+             (buf_zlen pieces < n -> Forall (Forall (fun c => buf_in_charset delims c = false)) pieces).
+Proof. exact bufs_split_limit_partition. Qed.
+Print Assumptions C19_buf_split_limit_partition.
+
+(* (b) KEEP_DELIMS, no limit, any other flags: the filter folded over the KEEP_DELIMS sections *)
+Theorem C19_buf_split_keep_fields : forall delims flags l,
+  buf_flag flags ARES_BUF_SPLIT_KEEP_DELIMS = true ->
+  fst (bufs_split delims flags 0 l) =
+  fold_left (fun a f => bufs_split_emit flags a (rev f)) (buf_fields_keep (buf_in_charset delims) l) [].
+Proof. exact bufs_split_keep_fields. Qed.
+Print Assumptions C19_buf_split_keep_fields.
+
+(* the KEEP_DELIMS sections: concatenated they are the input; they are the ordinary fields, each
+   one after the first with the delimiter that preceded it in front *)
+Theorem C19_buf_fields_keep_spec : forall isd l,
+  concat (buf_fields_keep isd l) = l /\
+  exists ds, Forall (fun d => isd d = true) ds /\
+    length (tl (buf_fields isd l)) = length ds /\
+    buf_fields_keep isd l = hd [] (buf_fields isd l) ::
+                            map (fun df => fst df :: snd df) (combine ds (tl (buf_fields isd l))).
+Proof. exact buf_fields_keep_spec. Qed.
+Print Assumptions C19_buf_fields_keep_spec.
+
+(* (b) KEEP_DELIMS without trim / duplicate flags, any limit, with or without ALLOW_BLANK: the
+   plain concatenation of the pieces is the input; every piece after the first begins with a
+   delimiter (so it is never blank: the header comment of ares_buf.h is inaccurate there) *)
+Theorem C19_buf_split_keep_concat : forall delims flags max_sections,
+  buf_flag flags ARES_BUF_SPLIT_KEEP_DELIMS = true ->
+  buf_flag flags ARES_BUF_SPLIT_LTRIM = false -> buf_flag flags ARES_BUF_SPLIT_RTRIM = false ->
+  buf_flag flags ARES_BUF_SPLIT_NO_DUPLICATES = false ->
+  forall l, concat (fst (bufs_split delims flags max_sections l)) = l /\
+            Forall (buf_starts_delim (buf_in_charset delims)) (tl (fst (bufs_split delims flags max_sections l))).
+Proof. exact bufs_split_keep_concat. Qed.
+Print Assumptions C19_buf_split_keep_concat.
+
+(* (b) KEEP_DELIMS with LTRIM / RTRIM: trimming removes whitespace only (possibly the kept
+   delimiter itself); after deleting all whitespace the concatenation equals the input *)
+Theorem C19_buf_split_keep_trim_concat : forall delims flags max_sections,
+  buf_flag flags ARES_BUF_SPLIT_NO_DUPLICATES = false -> forall l,
+  buf_flag flags ARES_BUF_SPLIT_KEEP_DELIMS = true ->
+  filter buf_nonws (concat (fst (bufs_split delims flags max_sections l))) = filter buf_nonws l.
+Proof. exact bufs_split_keep_trim_concat. Qed.
+Print Assumptions C19_buf_split_keep_trim_concat.
